@@ -151,9 +151,9 @@ def err_coarse(out):
     return out
 
 
-def run_history(history, oids, server_version='5.0.5', probe=None):
+def run_history(history, oids, server_version='5.0.5', probe=None, pre_probe=None):
     """→ python steps"""
-    pyres = hist.run_python(history, oids, server_version, probe)
+    pyres = hist.run_python(history, oids, server_version, probe, pre_probe)
     seq = []
     for op, (po, pobs, extra, _, _) in zip(history, pyres):
         seq.append((po.split(), pobs.split()))
@@ -258,7 +258,7 @@ class Engine(object):
                 except wire.Unencodable:
                     continue
                 py = run_history(history, oids, getattr(prop, 'server_version', '5.0.5'),
-                                 getattr(prop, 'probe', None))
+                                 getattr(prop, 'probe', None), getattr(prop, 'pre_probe', None))
                 batch.append((history, oids, py))
                 lines.append(line)
             done += 400
@@ -294,7 +294,7 @@ class Engine(object):
         oids = wire.Oids()
         history = wire.dec(e['wire_history'], oids)
         py = run_history(history, oids, e.get('server_version', '5.0.5'),
-                         getattr(self.prop, 'probe', None))
+                         getattr(self.prop, 'probe', None), getattr(self.prop, 'pre_probe', None))
         out = wire.run_driver([hist.model_line(history, oids, getattr(self.prop, 'pre_v5', False))])
         mo = model_steps(history, out[0])
         self.judge(history, oids, py, mo)
@@ -372,6 +372,6 @@ def module_api(mod, quick, thorough):
         oids = wire.Oids()
         history = wire.dec(e['witness']['wire_history'], oids)
         py = run_history(history, oids, getattr(mod, 'server_version', '5.0.5'),
-                         getattr(mod, 'probe', None))
+                         getattr(mod, 'probe', None), getattr(mod, 'pre_probe', None))
         return any(label == e['id'] for (_, label, _) in mod.oracle(history, py))
     return run, replay, replay_finding
